@@ -93,7 +93,7 @@ Step(st0, e, strict) ==
                     ELSE IF st.term THEN R(st, "C03:DeliveryStartedAfterTerm")
                     ELSE IF strict /\ ~st.faulted /\ st.starts <= 1 /\      \* (after a restart the order follows the saved times, see the C15 known finding)
                             (LET dueOf(k, j) == LET q == st.msgs[k].recs[j] IN
-                                                  IF q.att = 0 THEN st.msgs[k].birth ELSE IF q.alrmed \/ st.lastcrash > q.satt THEN 0 ELSE Backoff(st.msgs[k].birth, q.tatt, q.c)
+                                                  IF q.att = 0 THEN st.msgs[k].birth ELSE IF q.alrmed THEN st.alrm ELSE IF st.lastcrash > q.satt THEN 0 ELSE Backoff(st.msgs[k].birth, q.tatt, q.c)
                                  mine == dueOf(n, i)
                              IN \E k \in 1..NMAX : k # n /\ st.msgs[k].alive /\ st.msgs[k].prepped /\ ~(\E f2 \in st.fl : f2[3] = k /\ st.msgs[k].recs[f2[4]].c = c) /\
                                    \E j \in 1..Len(st.msgs[k].recs) : LET q == st.msgs[k].recs[j] IN
@@ -188,7 +188,9 @@ Step(st0, e, strict) ==
          ELSE IF e.k = "ALRM"
            THEN \* everything that is waiting becomes due; a message with a delivery in flight on a channel is being attempted already
                 LET busy == {<<f[3], f[1]>> : f \in st.fl}
-                IN R([st EXCEPT !.alrm = st.seq,
+                \* (pqrun() sets the retry time of every waiting entry to the time of the signal - not to zero: a message that arrived
+                \* in the same second is not later than they are)
+                IN R([st EXCEPT !.alrm = e.t,
                                 !.msgs = [k \in 1..NMAX |-> [st.msgs[k] EXCEPT !.recs = [i \in 1..Len(st.msgs[k].recs) |->
                                             IF <<k, st.msgs[k].recs[i].c>> \notin busy THEN [st.msgs[k].recs[i] EXCEPT !.alrmed = TRUE] ELSE st.msgs[k].recs[i]]]]], "")
          ELSE R(st, "")
@@ -209,7 +211,7 @@ Step(st0, e, strict) ==
                                                                  /\ Cardinality(InFlightOn(st, rec.c)) < Limit(st, rec.c)}
                   due(w) == LET rec == st.msgs[w[1]].recs[w[2]] IN
                               IF rec.att = 0 THEN st.msgs[w[1]].birth
-                              ELSE IF rec.alrmed \/ st.lastcrash > rec.satt THEN 0
+                              ELSE IF rec.alrmed THEN st.alrm ELSE IF st.lastcrash > rec.satt THEN 0
                               ELSE Backoff(st.msgs[w[1]].birth, rec.tatt, rec.c)
                   overdue == {w \in waiting : st.msgs[w[1]].recs[w[2]].free /\ due(w) + 1 <= st.now /\ ~\E f \in st.fl : f[3] = w[1] /\ st.msgs[f[3]].recs[f[4]].c = st.msgs[w[1]].recs[w[2]].c}
                   overslept == {w \in waiting : st.msgs[w[1]].recs[w[2]].free /\ due(w) > st.now /\ st.now + e.tmo > due(w) + 1
